@@ -56,10 +56,14 @@ func init() {
 		"strings.Replace": func(fr *frame, a []value) value {
 			return inStringsReplace(fr, a[0], a[1], a[2], int(asInt64(fr.i.concretize(a[3]))))
 		},
-		"strings.Fields":    inStringsFields,
-		"strings.EqualFold": inStringsEqualFold,
-		"strings.Title":     func(fr *frame, a []value) value { return strings.Title(fr.i.concStr(a[0])) },
-		"strings.NewReader": inNewReader,
+		"strings.Fields":         inStringsFields,
+		"strings.EqualFold":      inStringsEqualFold,
+		"strings.Title":          func(fr *frame, a []value) value { return strings.Title(fr.i.concStr(a[0])) },
+		"strings.NewReader":      inNewReader,
+		"(*strings.Reader).Read": inReaderRead,
+		"(*bytes.Reader).Read":   inReaderRead,
+		"(*strings.Reader).Len":  inReaderLen,
+		"(*bytes.Reader).Len":    inReaderLen,
 
 		"(*strings.Builder).WriteString": inBuilderWriteString,
 		"(*strings.Builder).WriteByte":   inBuilderWriteByte,
@@ -497,8 +501,34 @@ func inStringsEqualFold(fr *frame, a []value) value {
 
 // readers are opaque boxes around their content: structure{content}
 func inNewReader(fr *frame, a []value) value {
-	var cell value = structure{a[0]}
+	var cell value = structure{a[0], 0}
 	return &cell
+}
+
+func inReaderRead(fr *frame, a []value) value {
+	i := fr.i
+	box := (*a[0].(*value)).(structure)
+	content := i.concStr(box[0])
+	off := box[1].(int)
+	p := a[1].([]value)
+	if off >= len(content) {
+		if len(p) == 0 {
+			return tuple{0, iface{}}
+		}
+		return tuple{0, i.globalError("io.EOF")}
+	}
+	n := 0
+	for n < len(p) && off+n < len(content) {
+		p[n] = content[off+n]
+		n++
+	}
+	box[1] = off + n
+	return tuple{n, iface{}}
+}
+
+func inReaderLen(fr *frame, a []value) value {
+	box := (*a[0].(*value)).(structure)
+	return len(fr.i.concStr(box[0])) - box[1].(int)
 }
 
 func inEscape(fr *frame, s value, tab map[byte]string) value {
